@@ -1,0 +1,25 @@
+//go:build verif
+
+// Package verifhook provides named hook points for the runtime-verification
+// harness. It is only active when built with the "verif" build tag; without
+// the tag Point is an empty function.
+package verifhook
+
+import "sync/atomic"
+
+var callback atomic.Value // of func(string)
+
+// Enabled reports whether hook points are compiled in.
+const Enabled = true
+
+// Set installs f as the function called at every hook point.
+func Set(f func(name string)) {
+	callback.Store(f)
+}
+
+// Point calls the installed callback, if any, with the point's name.
+func Point(name string) {
+	if f, ok := callback.Load().(func(string)); ok && f != nil {
+		f(name)
+	}
+}
